@@ -425,7 +425,7 @@ def run(run):
             run.count(h(['big', src, path]), True, 'big-ok' if r['ok'] else 'big-violated')
             if not r['ok']:
                 run.violation('lookahead-grows/%s' % '+'.join(path), r['what'], {'src': src, 'path': path,
-                                                                               'sizes': [150, 100000]})
+                                                                               'sizes': big_sizes(src)})
     run.extra['distinct_lookahead_profiles'] = sorted(profiles)
     run.rule = ('every sequence of non-buffering steps (alphabet %d) up to length %d x source kind (1 or 2 counting '
                 'generators through the iterable loader, a (descriptor, iterators) load) x stream lengths %r; '
@@ -433,13 +433,19 @@ def run(run):
                 % (len(SIGMA), depth, ns))
     run.explanation = ('per source: look-ahead = rows pulled - (index of the row being delivered + 1), maximised over '
                        'all deliveries; must be <= %d (the inference sample) and equal for every stream length' % SAMPLE)
-    run.assumptions.append('load(<csv path>) and remote/SQL sources are not covered (tabulator reads its own sample at open)')
+    run.assumptions.append('file sources are exercised through a counting tabulator parser (format=/custom_parsers=); the csv/xlsx '
+                           'parsers themselves and remote/SQL sources are not covered')
 
 
 def _big(args):
     src, path = args
-    v, outcome, prof = check_seq(src, path, [150, 100000])
+    v, outcome, prof = check_seq(src, path, big_sizes(src))
     return {'ok': not v, 'what': v[0][1] if v else ''}
+
+
+def big_sizes(src):
+    # both lengths lie beyond the source's sample (a file shorter than tabulator's 1000-row sample is read whole)
+    return [1500, 100000] if src in FILE_OPTS else [150, 100000]
 
 
 def replay(w):
